@@ -35,7 +35,8 @@ RULE = ("alphabet of 23 actions: poll answered by the simulator with {1 event, 2
         "swallow or injection"
         ". Round-5 addition (walks): three event-queue conversations in one world - the main region, a neighbour region that was announced and never got as far as its handshake (incl. its teardown), and a second avatar standing in the same simulator - each judged on its own stream"
         ". Rounds 6-7: events injected as Message objects with enum members; swallowing by position with two identical events in one response; the clock advances between polls (action W in the alphabet)"
-        ". Round 9: three events of which the third equals the first (or is its integer/real look-alike) with only the last swallowed; events injected from one reused Message object")
+        ". Round 9: three events of which the third equals the first (or is its integer/real look-alike) with only the last swallowed; events injected from one reused Message object"
+        ". Round 10: bursts of 1001-2500 injected events waiting for one response")
 ASSUMPTIONS = [
     "the simulator sends every event once, with increasing response ids, and ignores acks (as the code's own comment says)",
     "the viewer repeats a poll with the same ack only when it did not receive the previous response",
